@@ -163,7 +163,10 @@ def main():
             os.remove(os.path.join(d, "patch.rebased.diff"))
         caught = [t for t in tiers if res.get("check_%s_exit" % t) == 1]
         head = subprocess.check_output(["git", "-C", "/repo", "rev-parse", "--short", "HEAD"], text=True).strip()
-        meta = {"breaks_property": prop, "source": "independent sub-agent given only the property text and a scratch worktree",
+        source = "independent sub-agent given only the property text and a scratch worktree"
+        if "-w8m" in name:
+            source = "regression: the reverse of one of /repo's fix: commits; a sub-agent was given the fix commit and the reverse patch (nothing from /verif), confirmed that the existing suites stay green and wrote the demonstration"
+        meta = {"breaks_property": prop, "source": source,
                 "needs_to_manifest": "see notes.md", "patch_base": head,
                 "confirmed": {"existing_suites_pass_with_patch": True, "demo_fails_with_patch": True, "demo_passes_without_patch": True,
                               "demo_package_dir": dd},
